@@ -4,6 +4,7 @@ import itertools
 from lib import facts as F
 from lib import enumflow as EF
 from lib import regions as R
+from lib import absint as AI
 
 WIDTHS = (8, 16, 32)
 SAMPLES = [0, 1, 0x7f, 0x80, 0xff, 0x100, 0x7fff, 0x8000, 0xffff, 0x10000, 0x7fffffff, 0x80000000, 0xffffffff,
@@ -291,3 +292,103 @@ def _without_assign(body, var):
     # an if whose condition assigns var (sh < 0 && (sh = …) >= 0): drop the whole statement, it only swaps operands
     nb['c'] = [s for s in nb['c'] if not (s['k'] == 'IfStmt' and assigns(s['c'][0]))]
     return nb
+
+
+# ---------------------------------------------------------------------------------------------
+# RF34: store-to-load forwarding in GVN narrows the forwarded value
+# ---------------------------------------------------------------------------------------------
+
+def rf34(run):
+    from lib import enumflow as EF
+    import rf_callmode as CM
+    rule = 'RF34'
+    run.rule(rule, 'gvn_modify, load after an available store of the same location: for every integer memory type the instruction '
+                   'that defines the forwarding temporary from the stored value is the extension a load of that type performs '
+                   '(I8->EXT8, U8->UEXT8, I16->EXT16, U16->UEXT16, I32->EXT32, U32->UEXT32) and a plain move only for 64-bit types; '
+                   'the load inherits the store\'s value number only when no narrowing happens. Decided by evaluating the code '
+                   'argument of the MIR_new_insn that creates the definition over the finite type domain')
+    gen = run.tu('gen')
+    f = gen.func('gvn_modify')
+    run.functions_analysed.add(('gen', f.name))
+    calls = []
+    for x in f.walk():
+        if x['k'] == 'CallExpr' and x.get('callee') == 'MIR_new_insn' and len(F.call_args(x)) >= 4:
+            src_arg = F.strip(F.call_args(x)[3])
+            if src_arg['k'] == 'ConditionalOperator' and 'op_ref' in F.src(src_arg['c'][0]) and 'mem_insn->ops[0]' in F.src(src_arg['c'][0]):
+                calls.append(x)
+    if len(calls) != 1:
+        raise F.AnalysisBroken('gvn_modify: the definition of the forwarding temporary (MIR_new_insn (…, op_ref == &mem_insn->ops[0] ? … : …)) '
+                               'was found %d times' % len(calls))
+    call = calls[0]
+    store_test = F.src(F.strip(F.strip(F.call_args(call)[3])['c'][0]))
+    comp = None
+    for a in f.ancestors(call):
+        if a['k'] == 'CompoundStmt':
+            comp = a
+            break
+    stmts = []
+    for st in F.kids(comp):
+        stmts.append(st)
+        if any(y is call for y in F.walk(st)):
+            break
+    ev = CM.TextEnv(gen)
+    codes = dict(gen.enum('MIR_insn_code_t'))
+    tys = dict(gen.enum('MIR_type_t'))
+    cname = {v: k for k, v in codes.items()}
+    want = {'MIR_T_I8': 'MIR_EXT8', 'MIR_T_U8': 'MIR_UEXT8', 'MIR_T_I16': 'MIR_EXT16', 'MIR_T_U16': 'MIR_UEXT16',
+            'MIR_T_I32': 'MIR_EXT32', 'MIR_T_U32': 'MIR_UEXT32', 'MIR_T_I64': 'MIR_MOV', 'MIR_T_U64': 'MIR_MOV', 'MIR_T_P': 'MIR_MOV'}
+    tkey = None
+    for x in F.walk(comp):
+        if x['k'] == 'MemberExpr' and x['n'] == 'type' and 'op_ref' in F.src(x):
+            tkey = F.src(x)
+    bad = None
+    for tn, wc in want.items():
+        for is_store in (1, 0):
+            env = {store_test: is_store, store_test.strip('()'): is_store, 'insn->code': codes['MIR_MOV']}
+            if tkey is not None:
+                env[tkey] = tys[tn]
+            re_ = CM.RetEval(ev)
+            for st in stmts[:-1]:
+                re_.run(st, env)
+            got = ev.eval(F.call_args(call)[1], env, frozenset())
+            exp = codes[wc] if is_store else codes['MIR_MOV']
+            ok = got == exp
+            run.ob(rule, (tn, 'store' if is_store else 'load'), ok, {'memory type': tn, 'available insn': 'store' if is_store else 'load',
+                                                                   'definition code': cname.get(got, got), 'required': cname[exp]})
+            if not ok and bad is None:
+                bad = (tn, is_store, got, exp)
+    if bad:
+        tn, is_store, got, exp = bad
+        if got is None:
+            raise F.AnalysisBroken('gvn_modify: the code of the forwarding definition is not evaluable for %s' % tn)
+        run.violation(rule, f, 'forwarding definition for %s memory' % tn,
+                      'after a store to %s memory the reload is replaced by a temporary defined with %s; a load of that type yields %s of the '
+                      'low part, so generated code at -O2/-O3 sees the unnarrowed stored value' % (tn, cname.get(got, got), cname[exp]), line=call['l'])
+    # the load inherits the store's value number only when nothing is narrowed
+    branch = None
+    for a in f.ancestors(call):
+        if a['k'] == 'CompoundStmt' and any(y['k'] == 'CallExpr' and y.get('callee') == 'copy_gvn_info'
+                                            and [F.src(F.strip(z)) for z in F.call_args(y)] == ['bb_insn', 'mem_bb_insn'] for y in F.walk(a)):
+            branch = a
+            break
+    if branch is None:
+        raise F.AnalysisBroken('gvn_modify: copy_gvn_info (bb_insn, mem_bb_insn) of the forwarding branch not found')
+    for tn, wc in want.items():
+        env = {store_test: 1, store_test.strip('()'): 1, store_test.replace('==', '!='): 0, store_test.replace('==', '!=').strip('()'): 0,
+               'insn->code': codes['MIR_MOV']}
+        if tkey is not None:
+            env[tkey] = tys[tn]
+        col = AI.Collector(gen, ev, lambda c: c.get('callee') == 'copy_gvn_info' and [F.src(F.strip(z)) for z in F.call_args(c)] == ['bb_insn', 'mem_bb_insn'])
+        for st in F.kids(branch):
+            if any(y is call for y in F.walk(st)):
+                break
+            col.run(st, env)
+        copied = bool(col.hits)
+        ok = copied == (wc == 'MIR_MOV')
+        run.ob(rule, ('value-number', tn), ok, {'memory type': tn, 'load takes the value number of the stored value': copied,
+                                               'allowed': wc == 'MIR_MOV'})
+        if not ok:
+            run.violation(rule, f, 'value number of a reload from %s memory' % tn,
+                          'the reload after a store to %s memory %s the value number of the stored value' % (tn, 'takes' if copied else 'does not take'),
+                          line=branch['l'])
+    run.min_instances(rule, 20)
